@@ -96,6 +96,18 @@ func verifMark(name string) {
 	verifDegradedUsed = append(verifDegradedUsed, name)
 }
 
+// VerifTry runs f and reports whether f called a stubbed function for the first time; the marks f left are taken back, so a
+// check that can do without what f reads keeps its verdict (it must then not use the values f produced).
+func VerifTry(f func()) (stubUsed bool) {
+	n := len(verifDegradedUsed)
+	f()
+	if len(verifDegradedUsed) > n {
+		verifDegradedUsed = verifDegradedUsed[:n]
+		return true
+	}
+	return false
+}
+
 // VerifDegradedUsed lists the stubbed functions that were called so far.
 func VerifDegradedUsed() []string { return append([]string(nil), verifDegradedUsed...) }
 
